@@ -174,16 +174,16 @@ func writeAll(dir string, files map[string][]byte) {
 }
 
 var userFiles = map[string][]byte{
-	"oas_notes.txt":          []byte("notes\n"),
-	"myoas_x_gen.go":         []byte("package api\n// user file with a look-alike name\n"),
-	"oas_user_gen.go.bak":    []byte("backup\n"),
-	"openapi.yaml":           []byte("openapi: 3.0.3\n"),
-	"handler.go":             []byte("package api\n"),
-	"Oas_upper_gen.go":       []byte("package api\n"),
-	"oas_gen.go.txt":         []byte("x\n"),
-	"x_oas_schemas_gen.go":   []byte("package api\n"),
-	"openapi_gen.go.orig":    []byte("x\n"),
-	"oas_stale_gen.go":       []byte("package api\n// stale generated file from an older ogen\n"),
+	"oas_notes.txt":           []byte("notes\n"),
+	"myoas_x_gen.go":          []byte("package api\n// user file with a look-alike name\n"),
+	"oas_user_gen.go.bak":     []byte("backup\n"),
+	"openapi.yaml":            []byte("openapi: 3.0.3\n"),
+	"handler.go":              []byte("package api\n"),
+	"Oas_upper_gen.go":        []byte("package api\n"),
+	"oas_gen.go.txt":          []byte("x\n"),
+	"x_oas_schemas_gen.go":    []byte("package api\n"),
+	"openapi_gen.go.orig":     []byte("x\n"),
+	"oas_stale_gen.go":        []byte("package api\n// stale generated file from an older ogen\n"),
 	"openapi_old_gen_test.go": []byte("package api\n"),
 }
 
@@ -224,14 +224,14 @@ var tstates = []tstate{
 // ---------------------------------------------------------------- run
 
 type caseResult struct {
-	Stage   string   `json:"stage"`
-	Clean   bool     `json:"clean"`
-	Target  string   `json:"target_state"`
-	Args    []string `json:"args"`
-	Exit    int      `json:"exit"`
-	Changes []change `json:"changes,omitempty"`
-	Output  string   `json:"output_tail,omitempty"`
-	Inject  string   `json:"inject,omitempty"`
+	Stage    string   `json:"stage"`
+	Clean    bool     `json:"clean"`
+	Target   string   `json:"target_state"`
+	Args     []string `json:"args"`
+	Exit     int      `json:"exit"`
+	Changes  []change `json:"changes,omitempty"`
+	Output   string   `json:"output_tail,omitempty"`
+	Inject   string   `json:"inject,omitempty"`
 	Syscalls []string `json:"mutating_syscalls,omitempty"`
 }
 
